@@ -153,6 +153,8 @@ def units(tier):
     add("B n=2 ac cleanup-acquire", n=2, modes="ac", cancel=1)
     add("B n=3 aca cleanup-acquire", n=3, modes="aca", cancel=1, T=1)
     add("B n=2 reacquire", n=2, modes="aa", reacquire=True, cancel=1)
+    add("B lock created outside the loop n=2 aa cancel=1", n=2, modes="aa", cancel=1, adapter=True, T=1)
+    add("B lock created outside the loop n=2 an reacquire", n=2, modes="an", reacquire=True, adapter=True, T=1)
     add("B n=3 reacquire with waiters", n=3, modes="aaa", reacquire=True, T=1, J=0)
     # three tasks
     for cancel in (0, 1, 2):
